@@ -92,6 +92,11 @@ def rotation_matrix(alpha, beta, gamma, radians = True):
                      -ca*sb, sa*sb, cb]).reshape((3,3)) # row major
 
 
+def _stack_coordinates(*coordinates):
+    # scalars (and singleton dimensions) broadcast against array coordinates
+    return np.array(np.broadcast_arrays(*coordinates))
+
+
 def transform_cartesian_to_spherical(x_y_z):
     x, y, z = x_y_z
     # hypot: no overflow/underflow of the squares (|x| > 1e154 or < 1e-162)
@@ -100,7 +105,7 @@ def transform_cartesian_to_spherical(x_y_z):
     r = np.hypot(rho, z)
     theta = np.arctan2(rho, z)
     phi = np.arctan2(y, x) % (2*np.pi)
-    return np.array([r, theta, phi])
+    return _stack_coordinates(r, theta, phi)
 
 
 def transform_spherical_to_cartesian(r_theta_phi):
@@ -108,7 +113,7 @@ def transform_spherical_to_cartesian(r_theta_phi):
     x = r * np.cos(phi) * np.sin(theta)
     y = r * np.sin(phi) * np.sin(theta)
     z = r * np.cos(theta)
-    return np.array([x, y, z])
+    return _stack_coordinates(x, y, z)
 
 
 def transform_cartesian_to_cylindrical(x_y_z):
@@ -116,7 +121,7 @@ def transform_cartesian_to_cylindrical(x_y_z):
     rho = np.hypot(x, y)
     phi = np.arctan2(y, x) % (2*np.pi)
     z = (np.full(np.shape(rho), z) if np.size(z) == 1 else z)
-    return np.array([rho, phi, z])
+    return _stack_coordinates(rho, phi, z)
 
 
 def transform_cylindrical_to_cartesian(rho_phi_z):
@@ -124,24 +129,24 @@ def transform_cylindrical_to_cartesian(rho_phi_z):
     x = rho * np.cos(phi)
     y = rho * np.sin(phi)
     z = (np.full(np.shape(x), z) if np.size(z) == 1 else z)
-    return np.array([x, y, z])
+    return _stack_coordinates(x, y, z)
 
 
 def transform_cylindrical_to_spherical(rho_phi_z):
     rho, phi, z = rho_phi_z
     r = np.hypot(rho, z)
     theta = np.arctan2(rho, z)
-    return np.array([r, theta, phi])
+    return _stack_coordinates(r, theta, phi)
 
 
 def transform_spherical_to_cylindrical(r_theta_phi):
     r, theta, phi = r_theta_phi
     rho = r * np.sin(theta)
     z = r * np.cos(theta)
-    return np.array([rho, phi, z])
+    return _stack_coordinates(rho, phi, z)
 
 
-def keep_in_same_coordinates(coords): return np.array(coords)
+def keep_in_same_coordinates(coords): return _stack_coordinates(*coords)
 
 
 _transformation_lut = {
